@@ -58,6 +58,9 @@ type BinCase struct {
 	Blocks   []BinBlock `json:"blocks"`
 	Rules    []BinRule  `json:"rules"`
 	Commands []string   `json:"commands"` // which of lint | ci | watch to run (empty = all)
+	// Link: the rule file lives in common/1.yml and is found through the symbolic link rules/1.yml -> ../common/1.yml
+	// (pint is pointed at "rules"); path conditions must see rules/1.yml. Only lint and watch are run then.
+	Link bool `json:"link,omitempty"`
 }
 
 var binMarkerReporter = map[string]string{
@@ -143,7 +146,7 @@ func cleanEnv() []string {
 	return append(append(env, gitEnv...), "NO_COLOR=1")
 }
 
-func git(dir string, args ...string) error {
+func runGit(dir string, args ...string) error {
 	cmd := exec.Command("git", args...)
 	cmd.Dir = dir
 	cmd.Env = cleanEnv()
@@ -303,7 +306,14 @@ func runBinCommand(bin string, c BinCase, command string) (observed, error) {
 	}
 	switch command {
 	case "lint", "watch":
-		if err := errors.Join(write("cfg.hcl", c.hcl()), write("rules/1.yml", text)); err != nil {
+		err := write("cfg.hcl", c.hcl())
+		if c.Link {
+			err = errors.Join(err, write("common/1.yml", text), os.MkdirAll(filepath.Join(dir, "rules"), 0o755),
+				os.Symlink("../common/1.yml", filepath.Join(dir, "rules", "1.yml")))
+		} else {
+			err = errors.Join(err, write("rules/1.yml", text))
+		}
+		if err != nil {
 			return nil, fmt.Errorf("%w: %v", errBinInconclusive, err)
 		}
 		if command == "watch" {
@@ -318,7 +328,7 @@ func runBinCommand(bin string, c BinCase, command string) (observed, error) {
 		}
 		steps := [][]string{{"init", "-q", "--initial-branch=main", "."}, {"add", "-A", "."}, {"commit", "-q", "-m", "base"}, {"checkout", "-q", "-b", "feature"}}
 		for _, s := range steps {
-			if err := git(repo, s...); err != nil {
+			if err := runGit(repo, s...); err != nil {
 				return nil, fmt.Errorf("%w: %v", errBinInconclusive, err)
 			}
 		}
@@ -326,7 +336,7 @@ func runBinCommand(bin string, c BinCase, command string) (observed, error) {
 			return nil, fmt.Errorf("%w: %v", errBinInconclusive, err)
 		}
 		for _, s := range [][]string{{"add", "-A", "."}, {"commit", "-q", "-m", "add rules"}} {
-			if err := git(repo, s...); err != nil {
+			if err := runGit(repo, s...); err != nil {
 				return nil, fmt.Errorf("%w: %v", errBinInconclusive, err)
 			}
 		}
@@ -387,6 +397,9 @@ func runBin(bin string, c BinCase) (out binOutcome, err error) {
 	cmds := c.Commands
 	if len(cmds) == 0 {
 		cmds = []string{"lint", "ci", "watch"}
+		if c.Link {
+			cmds = []string{"lint", "watch"}
+		}
 	}
 	for _, command := range cmds {
 		obs, rerr := runBinCommand(bin, c, command)
@@ -437,7 +450,9 @@ func runBin(bin string, c BinCase) (out binOutcome, err error) {
 var (
 	binAlertNames  = []string{"Foo", "BarDown", "X1", "Foo_Bar", "InstanceDown", "HighErrors"}
 	binRecordNames = []string{"foo:sum", "job:foo:rate5m", "bar:count"}
-	binCondKinds   = []string{pintcfg.CCommand, pintcfg.CCommand, pintcfg.CKind, pintcfg.CName}
+	binCondKinds   = []string{pintcfg.CCommand, pintcfg.CCommand, pintcfg.CKind, pintcfg.CName, pintcfg.CPath}
+	// pint is started inside the scratch tree with the relative argument "rules": the file is found as rules/1.yml
+	binPaths = []string{`rules/.*`, `common/.*`, `.*`, `(.*/)?rules/.*`, `.*/1\.yml`, `(.*/)?common/.*`, `rules/1\.yml|x`, `(common|outside)/.*`}
 )
 
 func genBinSelector(t *rapid.T, label string, p pintcfg.SelectorPools) pintcfg.Selector {
@@ -458,6 +473,8 @@ func genBinSelector(t *rapid.T, label string, p pintcfg.SelectorPools) pintcfg.S
 func genBinCase(t *rapid.T) BinCase {
 	var c BinCase
 	p := pintcfg.DefaultSelectorPools()
+	p.Paths = binPaths
+	c.Link = rapid.Bool().Draw(t, "link")
 	markers := rapid.Permutation([]string{"label", "annotation", "name", "for"}).Draw(t, "markers")
 	nb := rapid.IntRange(2, 4).Draw(t, "nblocks")
 	for i := 0; i < nb; i++ {
